@@ -136,8 +136,16 @@ func c20eval(c c20Case) []ev.Finding {
 		rep("length", fmt.Sprintf("want %d columns", len(slots)+off))
 		return out
 	}
-	if off == 1 && cols[0] != sel.TimeFieldName() {
-		rep("time-column", fmt.Sprintf("column 0 should be %q", sel.TimeFieldName()))
+	// the time column is called "time" unless the statement carries an alias for it (with or without INTO)
+	wantTime := "time"
+	if sel.TimeAlias != "" {
+		wantTime = sel.TimeAlias
+	}
+	if off == 1 && cols[0] != wantTime {
+		rep("time-column", fmt.Sprintf("column 0 should be %q", wantTime))
+	}
+	if got := sel.TimeFieldName(); got != wantTime {
+		rep("time-field-name", fmt.Sprintf("TimeFieldName() = %q, want %q", got, wantTime))
 	}
 	aliases := map[string]int{}
 	for i, s := range slots {
